@@ -117,7 +117,11 @@ class Ctx:
 
     # ---- Coq ------------------------------------------------------------------
     def coq_build(self):
-        """Full .vo build of the development (incremental). Returns (ok, log)."""
+        """Regenerate the fact files from /repo's current source, then a full .vo build of the
+        development (incremental). Returns (ok, log)."""
+        ok, out = run_gofacts()
+        if not ok:
+            return False, "gofacts (fact translator) failed on the current source:\n" + out
         ensure_makefile()
         rc, out = sh("timeout 1500 make -j16 2>&1", cwd=COQ, timeout=1600)
         return rc == 0, out
@@ -161,6 +165,19 @@ class Ctx:
             fh.write(body)
         rc, out = sh(["timeout", str(timeout), "coqc", "-Q", COQ, "Olareg", path], cwd=d, timeout=timeout + 60)
         return rc, out
+
+
+def run_gofacts():
+    """(re)build the translator and regenerate coq/Gen_*.v from REPO (files are rewritten only when they change)"""
+    binp = os.path.join(VERIF, "bin", "gofacts")
+    src = os.path.join(VERIF, "harness", "gofacts")
+    if not os.path.exists(binp) or os.path.getmtime(os.path.join(src, "main.go")) > os.path.getmtime(binp):
+        os.makedirs(os.path.dirname(binp), exist_ok=True)
+        rc, out = sh(["go", "build", "-o", binp, "."], cwd=src, env=GOENV, timeout=600)
+        if rc != 0:
+            return False, out
+    rc, out = sh([binp, REPO, COQ], timeout=120)
+    return rc == 0, out
 
 
 def ensure_model():
